@@ -3,6 +3,7 @@ import AspireModel.Model.Weights
 import AspireModel.Model.Rows
 import AspireModel.Model.Tempering
 import AspireModel.Model.Schedule
+import AspireModel.Model.Smc
 /-
   Pure part of the line-protocol driver: one request line in, one reply line out.
   `Main.lean` only does the IO loop.  First token selects the width (`f64` / `f32`),
@@ -197,6 +198,87 @@ def opFixed : P String := do
   let old := run (fun b => fixedNextAccum b step) (2 * n + 5) 0 []
   pure (outL new ++ " " ++ outL old)
 
+
+/-! ### whole SMC loop (C06, C08, C11, C12, C18): the state machine of `Model/Smc.lean`
+    instantiated with the numeric kernels above, fed with recorded kernel outputs -/
+
+def parsePop : P (SS α) := do
+  let n ← nat; let d ← nat
+  let flat : List α ← many sc (n * d)
+  let rec chunk (l : List α) (k : Nat) : List (List α) :=
+    match k with
+    | 0 => []
+    | k+1 => l.take d :: chunk (l.drop d) k
+  let ll : List α ← many sc n; let lp : List α ← many sc n; let lq : List α ← many sc n
+  let beta : α ← sc
+  pure { cls := .smc, x := chunk flat n, ll := some ll, lp := some lp, lq := some lq, beta := some beta }
+
+def popCols (p : SS α) : List α × List α × List α :=
+  (p.ll.getD [], p.lp.getD [], p.lq.getD [])
+
+def smcKit (c : BetaCfg α) (step : α) : Kit (SS α) α :=
+  { nextBeta := fun p β m =>
+      let (ll, lp, lq) := popCols p
+      determineBeta c FloatLike.roundNat (fun b => effAt β b ll lp lq) 4000 β step m
+    ess := fun p β b => let (ll, lp, lq) := popCols p; essOf (logWeights β b ll lp lq)
+    essTarget := fun p β => let (ll, lp, lq) := popCols p; essOf (logWeights β 1 ll lp lq)
+    effTarget := fun b => currentTarget c b
+    ratio := fun p β b => let (ll, lp, lq) := popCols p; logEvidenceRatio β b ll lp lq
+    var := fun p β b =>
+      let (ll, lp, lq) := popCols p
+      match logEvidenceRatioVar β b ll lp lq with | some v => v | none => (0 : α) / 0
+    resample := fun p b idx => { select essSel evFn idx p with beta := some b }
+    isOne := fun b => decide (b ≤ 1) && decide (1 ≤ b)
+    one := 1
+    size := fun p => p.x.length
+    sumS := fun l => l.foldl (· + ·) 0
+    rootSumS := fun l => ExpLog.sqrt (l.foldl (· + ·) 0) }
+
+def optNat : P (Option Nat) := do
+  let i ← int
+  pure (if i < 0 then none else some i.toNat)
+
+def outHist (h : Hist (SS α) α) : String :=
+  " ".intercalate [outL h.beta, outL h.ess, outL h.essTarget, outL h.effTarget, outL h.ratio, outL h.var,
+    toString h.pops.length]
+
+def outCk (c : Ckpt (SS α) α) : String :=
+  " ".intercalate [toString c.iter, outS c.beta, toString c.hist.beta.length, toString c.hist.pops.length,
+    toString c.consumed, toString c.pop.x.length, outS c.minStep]
+
+def outRun (r : RunOut (SS α) α) : String :=
+  match r with
+  | .raised _ => "raised"
+  | .interrupted cks => "interrupted " ++ toString cks.length ++ " " ++ " ".intercalate (cks.map outCk)
+  | .done res =>
+    "done " ++ outS res.logZ ++ " " ++ outS res.logZerr ++ " " ++ toString res.pop.x.length ++ " "
+      ++ toString res.st.iter ++ " " ++ outHist res.st.hist ++ " "
+      ++ toString res.st.ckpts.length ++ " " ++ " ".intercalate (res.st.ckpts.map outCk)
+
+/-- `smcloop <cfg> step minStep0 every maxSteps nFinal store cut resumeAt pop0 nsteps (k idx.. pop)*`
+    `cut ≥ 0`: feed only the first `cut` steps (an interrupted run);
+    `resumeAt ≥ 0`: additionally resume from the last checkpoint of that interrupted run with all
+    steps and report the resumed run instead. -/
+def opSmcLoop : P String := do
+  let c ← parseCfg (α := α)
+  let step : α ← sc; let minStep0 : α ← sc
+  let every ← optNat; let maxSteps ← optNat; let nFinal ← optNat; let store ← bool
+  let cut ← optNat; let doResume ← bool
+  let p0 ← parsePop (α := α)
+  let steps ← listOf (do let idx ← listOf nat; let p ← parsePop (α := α); pure ({ idx := idx, mutated := p } : Step (SS α)))
+  let k := smcKit c step
+  let cfg : SmcCfg α := { every := every, maxSteps := maxSteps, nFinal := nFinal, storeHistory := store, minStep0 := minStep0 }
+  let fed := match cut with | some j => steps.take j | none => steps
+  let r := run k cfg 0 p0 fed
+  if doResume then
+    match r with
+    | .interrupted cks =>
+      match cks.getLast? with
+      | some ck => pure ("resumed " ++ outRun (resume k cfg ck steps))
+      | none => pure ("resumed-fresh " ++ outRun (run k cfg 0 p0 steps))
+    | other => pure ("not-interrupted " ++ outRun other)
+  else pure (outRun r)
+
 def dispatch (op : String) : P String :=
   match op with
   | "weights" => opWeights (α := α)
@@ -215,6 +297,7 @@ def dispatch (op : String) : P String :=
   | "beta_pinned" => opBeta (α := α) true
   | "eff" => opEff (α := α)
   | "fixed" => opFixed (α := α)
+  | "smcloop" => opSmcLoop (α := α)
   | _ => throw s!"unknown op {op}"
 
 end Driver
